@@ -15,8 +15,9 @@
                   | (4) array | (5 ((x<key> J)..)) object | (6) text rejected by encoding/json
    cases
      (0 T d x<addr> x<id> x<pass> n p x<salt> x<iv> (x<wrongpass>..))   EncryptKey then DecryptKey / GetKey
-         -> (0 J dec (dec..) getkey) | (1 class)
-     (1 T J x<pass>)                                                    DecryptKey on a (mutated) file
+         -> (0 J dec (dec..)) | (1 class)
+     (1 T J x<pass> x<text> meta)   (text/meta: for the implementation and its oracle only)
+                                                     DecryptKey on a (mutated) file
          -> dec
      (2 T x<data> x<pass> n p x<salt> x<iv> (x<wrongpass>..))           EncryptDataV3 then DecryptDataV3
          -> (0 J ddec (ddec..)) | (1 class)
@@ -31,6 +32,7 @@ Definition err_code (e : err) : Z :=
   match e with
   | EJson => 1 | EVersion => 2 | EUuid => 3 | ECipher => 4 | EHex => 5 | EKdf => 6
   | EDecrypt => 7 | EInvalidKey => 8 | EAddrMismatch => 9 | EPanic => 10 | EOracle => 11
+  | EIvLen => 12
   end%Z.
 Definition serr (e : err) : sx := SL [SI 1%Z; SI (err_code e)].
 
@@ -122,14 +124,15 @@ Fixpoint addr_tab (t : list sx) (key : list N) : option (list N) :=
 Section WithTables.
   Variables kT cT bT aT : list sx.
   Let H := keccak256.
+  Let lg := false.          (* the repaired passphrase.go *)
   Let kdf := kdf_tab kT.
   Let ctr := ctr_tab cT.
   Let cbc := cbc_tab bT.
   Let addr := addr_tab aT.
 
-  Definition m_decrypt_key := decrypt_key H kdf ctr cbc addr.
-  Definition m_get_key := get_key H kdf ctr cbc addr.
-  Definition m_decrypt_data := decrypt_data_v3 H kdf ctr.
+  Definition m_decrypt_key := decrypt_key lg H kdf ctr cbc addr.
+  Definition m_get_key := get_key lg H kdf ctr cbc addr.
+  Definition m_decrypt_data := decrypt_data_v3 lg H kdf ctr.
   Definition m_encrypt_key := encrypt_key H kdf ctr.
   Definition m_encrypt_data := encrypt_data_v3 H kdf ctr.
 
@@ -160,11 +163,10 @@ Section WithTables.
             | Ok env =>
                 let j := to_json env in
                 SL [SI 0%Z; sx_of_jv j; dec_sx (m_decrypt_key j pass);
-                    SL (map (fun w => dec_sx (m_decrypt_key j w)) ws);
-                    getkey_sx (m_get_key a j pass)]
+                    SL (map (fun w => dec_sx (m_decrypt_key j w)) ws)]
             end
         end
-    | [SI 1%Z; j; SB pass] =>
+    | [SI 1%Z; j; SB pass; _; _] =>
         match jv_of_sx j with
         | None => SErr 3
         | Some jv' => dec_sx (m_decrypt_key jv' pass)
